@@ -63,8 +63,14 @@ def step (_ : Unit) (kind : String) (args impl : List String) : Option (Unit × 
     let sc ← (kv? rest "scheme").bind scheme?
     let root ← (kv? rest "root").bind str?
     let bp ← (kv? rest "bp").bind str?
-    let pf := if impl = ["panic"] then [s!"side=impl key=name-from-path-panic {kv? rest "scheme"} root={kv? rest "root"} bp={kv? rest "bp"}"] else []
     let r := nameFromBlobPath sc root.toList bp.toList
+    let i := impl.headD ""
+    let m := nameTok r i
+    let pf := if impl = ["panic"] then [s!"side=impl key=name-from-path-panic {kv? rest "scheme"} root={kv? rest "root"} bp={kv? rest "bp"}"]
+      else if m = i then []
+      else if i.startsWith "ok:" ∧ m = "err" then [s!"side=impl key=path-accepts-malformed {kv? rest "scheme"} root={kv? rest "root"} bp={kv? rest "bp"} gave {i}"]
+      else if i = "err" then [s!"side=impl key=path-rejects-wellformed {kv? rest "scheme"} root={kv? rest "root"} bp={kv? rest "bp"}: expected {m}"]
+      else [s!"side=impl key=path-wrong-name {kv? rest "scheme"} root={kv? rest "root"} bp={kv? rest "bp"} gave {i}, expected {m}"]
     let br := match r with | .ok _ => "name.ok" | .err => "name.err" | .unsupported => "name.unsupported"
     pure ((), { obs := [nameTok r (impl.headD "")], branch := br, propfails := pf })
   | "join" :: elems => do
